@@ -394,8 +394,8 @@ func randomHistory(s *session, rng *rand.Rand, length int) error {
 				max := 2*len(staged[in.Tx]) + 2
 				in.K = 1 + rng.Intn(max)
 				in.How = []string{"err", "crashed"}[rng.Intn(2)]
-				if s.mode == "cli" {
-					in.How = "crashed"
+				if s.mode == "cli" && in.Op == "txdiscard" {
+					in.How = "crashed" // (a failing discard cannot be had through the command line)
 				}
 			}
 		}
